@@ -842,6 +842,10 @@ func (w *world) runEnv(in envInput) gen.Case {
 func genEnv(r *gen.Rand) envInput {
 	root := roleJ{Name: "w"}
 	taskCount := 0
+	// clean: every target names something and aliases are pairwise different, so that the
+	// configuration is expected to succeed; wild: anything goes
+	clean := r.Chance(3, 5)
+	aliasSeq := 0
 	mkTask := func(name string) roleJ {
 		taskCount++
 		t := &taskJ{Mode: r.Pick([]string{"direct", "direct", "direct", "direct", "fairmq", "fairmq", "fairmq", "fairmq", "fairmq", "basic"})}
@@ -874,10 +878,13 @@ func genEnv(r *gen.Rand) envInput {
 	// inbound declarations
 	declIn := func(aggr bool) inJ {
 		c := genInDecl(r, inNames)
-		if aggr && r.Chance(2, 3) {
+		if aggr && (clean || r.Chance(2, 3)) {
 			c.Global = "" // an alias declared above several tasks is a conflict; keep it rare
 		}
-		if c.Global != "" && r.Chance(1, 2) {
+		if c.Global != "" && clean {
+			aliasSeq++
+			c.Global = fmt.Sprintf("u-%d", aliasSeq)
+		} else if c.Global != "" && r.Chance(1, 2) {
 			c.Global = fmt.Sprintf("g-%d", r.Intn(6)) // mostly distinct aliases
 		}
 		return c
@@ -931,17 +938,25 @@ func genEnv(r *gen.Rand) envInput {
 		if f.T.Mode == "basic" {
 			continue
 		}
+		seen := map[string]bool{}
 		for _, blk := range append(append([][]inJ(nil), f.Binds...), f.T.CBind) {
 			for _, c := range blk {
 				keys = append(keys, f.path()+":"+c.Name)
-				if c.Global != "" {
-					aliases = append(aliases, "::"+c.Global)
+				if c.Global != "" && (!clean || !seen[c.Name]) {
+					aliases = append(aliases, "::"+c.Global) // clean: only aliases of declarations that apply
 				}
+				seen[c.Name] = true
 			}
 		}
 	}
 	target := func() string {
 		x := r.Intn(100)
+		if clean {
+			x = x * 82 / 100
+			if len(keys) == 0 && len(aliases) == 0 {
+				return genExplicit(r)
+			}
+		}
 		switch {
 		case x < 50 && len(keys) > 0:
 			return r.Pick(keys)
@@ -992,9 +1007,9 @@ func genEnv(r *gen.Rand) envInput {
 			own = append(own, declOut(names))
 		}
 		ro.Connect = uniqO(own)
-		if r.Chance(1, 4) {
+		if r.Chance(1, 4) && (!clean || len(ro.Connect) > 0) {
 			c := declOut(names)
-			if len(ro.Connect) > 0 && r.Chance(4, 5) {
+			if len(ro.Connect) > 0 && (clean || r.Chance(4, 5)) {
 				c.Name = ro.Connect[r.Intn(len(ro.Connect))].Name // shadowed by the role level
 			}
 			ro.Task.CConn = []outJ{c}
